@@ -156,3 +156,76 @@ def init_state(ctx):
         return ai.call_function(fn, [obj], {})
     outs = ai.explore(thunk)
     return fn, outs, holder.get('obj')
+
+
+# ---------------------------------------------------------------------------------------------------------------------------
+# The same obligations without looking inside the tokenizer.
+#
+# The rules above put the tokenizer into a pre-state by writing its fields (_status, _bytes, _len) - exact, with a sysex payload
+# of arbitrary length, but tied to that representation.  When Tokenizer() does not have these fields (state regrouped, renamed,
+# held in a helper object) the transitions are decided by observation instead: the pre-state is reached by FEEDING a prefix
+# to a fresh tokenizer, the byte is fed, then a distinguishing suffix (two data bytes and an end-of-exclusive) is fed and the
+# queue is drained.  The tokens that come out must be among those the reference transition relation allows for
+# prefix + byte + suffix.  Two reference states always give different outputs on that suffix, so a wrong post-state shows.
+
+def representation_known(ctx):
+    fn, outs, obj = init_state(ctx)
+    if len(outs) != 1 or outs[0].kind != 'return' or obj is None:
+        return False
+    a = obj.attrs
+    return '_status' in a and isinstance(a.get('_bytes'), AList) and isinstance(a.get('_messages'), AList)
+
+
+def pre_prefix(pre):
+    """Bytes that bring a fresh reference tokenizer into the pre-state, one token already waiting in the queue."""
+    if pre.kind == 'idle':
+        return [0x91, AV.of_sym(Sym('s1', 127)), AV.of_sym(Sym('s2', 127))]       # a complete message: pending token + stale buffer
+    if pre.kind == 'sysex':
+        return [0xf8, 0xf0] + ([AV.of_sym(Sym('q1', 127))] if pre.k else [])
+    return [0xf8, pre.status] + [AV.of_sym(Sym(f'p{i}', 127)) for i in range(pre.k - 1)]
+
+
+SUFFIX = None
+
+
+def suffix():
+    global SUFFIX
+    if SUFFIX is None:
+        SUFFIX = [AV.of_sym(Sym('z1', 127)), AV.of_sym(Sym('z2', 127)), 0xf7]
+    return SUFFIX
+
+
+def observed_transitions(ctx, bytes_=range(256)):
+    """[(pre, byte, outcomes, tokens | None)] - tokens: the drained queue after prefix + byte + suffix, as lists of items."""
+    from .fold import ClassRef
+    cls = ctx.p.cls(TOK_MOD, 'Tokenizer')
+    o, fb = ctx.p.lookup_method(cls, 'feed_byte')
+    o, it = ctx.p.lookup_method(cls, '__iter__')
+    if fb is None or it is None:
+        raise AnalysisError('Tokenizer.feed_byte / __iter__ not found')
+    ctx.fn(fb)
+    from . import smf
+    ai = smf.make_interp(ctx)           # deque operations modelled (popleft, extend...)
+    out = []
+    for pre in pre_states():
+        pfx = pre_prefix(pre)
+        for b in bytes_:
+            def thunk():
+                ai.steps = 0
+                tok = ai.apply(ClassRef(cls), [], {}, None)
+                for x in pfx:
+                    ai.call_function(fb, [tok, x], {})
+                ai.call_function(fb, [tok, b], {})
+                for x in suffix():
+                    ai.call_function(fb, [tok, x], {})
+                return ai.iterate(ai.call_function(it, [tok], {}), None, keep_vars=True)
+            outs = ai.explore(thunk, limit=16)
+            toks = None
+            if len(outs) == 1 and outs[0].kind == 'return':
+                toks = []
+                for t in outs[0].value:
+                    toks.append(list(t.items) if isinstance(t, AList) else list(t) if isinstance(t, (list, tuple)) else t)
+            out.append((pre, b, outs, toks))
+    for q in ai.inlined:
+        ctx.functions.add(q)
+    return fb, out
